@@ -137,12 +137,26 @@ func (g *gen) wrap(nest int) plgen.Stmt {
 		v := fmt.Sprintf("i%d", nest)
 		return plgen.Stmt{K: "for", N: n, V: v, Init: v + " = 0", Cond: fmt.Sprintf("%s < %d", v, n), Post: fmt.Sprintf("%s = %s + 1", v, v), Body: g.block(nest+1, 3)}
 	default:
+		// for-in over a list, a map or a string: the body never looks at the loop variable, so the
+		// (unspecified) order of map keys cannot matter; only the number of iterations does
 		n := int64(g.r.Intn(4))
 		xs := make([]string, n)
-		for i := range xs {
-			xs[i] = fmt.Sprint(i + 1)
+		iter := ""
+		switch g.r.Intn(3) {
+		case 0:
+			for i := range xs {
+				xs[i] = fmt.Sprint(i + 1)
+			}
+			iter = "[" + strings.Join(xs, ", ") + "]"
+		case 1:
+			for i := range xs {
+				xs[i] = fmt.Sprintf("%q: %d", string(rune('p'+i)), i)
+			}
+			iter = "{" + strings.Join(xs, ", ") + "}"
+		default:
+			iter = fmt.Sprintf("%q", "wxyz"[:n])
 		}
-		return plgen.Stmt{K: "forin", N: n, V: fmt.Sprintf("x%d", nest), Iter: "[" + strings.Join(xs, ", ") + "]", Body: g.block(nest+1, 3)}
+		return plgen.Stmt{K: "forin", N: n, V: fmt.Sprintf("x%d", nest), Iter: iter, Body: g.block(nest+1, 3)}
 	}
 }
 
